@@ -304,6 +304,19 @@ def movable(chart):
     return None
 
 
+def constructions(chart):
+    """the ways a chart of this shape can be put together through the public editing API: directly (None), with one
+    composite state moved into place together with its content (its index), or with every deeper state moved
+    into place one by one ('all')"""
+    out = [None]
+    if any(p > 0 for p in chart['par']) and chart['kind'][0] in (COMPOUND, ORTH):
+        out.append('all')
+    mv = movable(chart)
+    if mv is not None:
+        out.append(mv)
+    return out
+
+
 def build(chart, naming='id', code=None, order=None, tr_order=None, name='g', preamble=None,
           priorities=None, moved=None):
     """construct the chart through the real public model API.
@@ -348,7 +361,7 @@ def build(chart, naming='id', code=None, order=None, tr_order=None, name='g', pr
         s, tg, e = cm.tr[t]
         tr = Transition(cm.names[s], None if tg < 0 else cm.names[tg], event=EVENTS[e],
                         guard=code('guard', t), action=code('action', t),
-                        priority=None if priorities is None else priorities[t])
+                        priority=None if (priorities is None or late) else priorities[t])
         sc.add_transition(tr)
         trs[t] = tr
     if late:
@@ -377,4 +390,7 @@ def build(chart, naming='id', code=None, order=None, tr_order=None, name='g', pr
                 st.initial = cm.names[cm.init[i]] if cm.init[i] >= 0 else None
             elif isinstance(st, _H):
                 st.memory = cm.names[cm.init[i]]
+        if priorities is not None:      # (possibly symbolic) priorities play no part in the warm-up run
+            for t, p in zip(trs, priorities):
+                t.priority = p
     return sc, trs, cm
